@@ -26,7 +26,7 @@ TREE_ASSUME = [
 PLANS = {
     'C06': {
         'quick': [tree('S3', 3, 1, 2, '{1}', 'S', 'S'), tree('K3', 3, 2, 2, '{1}', 'K', 'K'), tree('KB3', 3, 4, 2, '{1}', 'K', 'KB'),
-                  tree('RS4', 4, 1, 2, '{1}', 'S', 'RS'), tree('KL3', 3, 6, 2, '{1}', 'K', 'KB')],
+                  tree('RS4', 4, 1, 2, '{1}', 'S', 'RS'), tree('KL3', 3, 6, 2, '{1}', 'K', 'KB'), tree('B4', 4, 1, 2, '{1}', 'N', 'B')],
         'thorough': [tree('S4', 4, 1, 2, '{1}', 'S', 'S'), tree('K3', 3, 2, 2, '{1}', 'K', 'K'),
                      tree('R3', 3, 1, 2, '{1}', 'R', 'R')],
         'rule': 'every transition (state, public call, arguments) of the reachable state graph of Tree.tla within the bounds, '
@@ -55,7 +55,7 @@ PLANS['C07'] = {
     'level_note': TREE_NOTE,
 }
 PLANS['C08'] = {
-    'quick': [tree('F3', 3, 1, 2, '{1}', 'R', 'F', maxfail=9), tree('DF5', 5, 1, 1, '{1}', 'SA', 'DF', maxfail=9), tree('SV2', 2, 1, 4, '{1}', 'Str', 'SV', maxfail=3), tree('AN3', 3, 1, 2, '{1}', 'All', 'AN', maxfail=3), tree('RF4', 4, 1, 1, '{1}', 'AO', 'RF', maxfail=9)],
+    'quick': [tree('F3', 3, 1, 2, '{1}', 'R', 'F', maxfail=9), tree('DF5', 5, 1, 1, '{1}', 'SA', 'DF', maxfail=9), tree('SV2', 2, 1, 4, '{1}', 'Str', 'SV', maxfail=3), tree('AN3', 3, 1, 2, '{1}', 'All', 'AN', maxfail=3), tree('CF3', 3, 1, 1, '{1}', 'K', 'CF', maxfail=3), tree('ODF4', 4, 1, 1, '{1}', 'O', 'ODF', maxfail=6), tree('RF4', 4, 1, 1, '{1}', 'AO', 'RF', maxfail=9)],
     'thorough': [tree('F3', 3, 1, 2, '{1}', 'R', 'F', maxfail=9), tree('DF5', 5, 1, 1, '{1}', 'SA', 'DF', maxfail=9),
                  tree('F3asan', 3, 1, 2, '{1}', 'R', 'F', maxfail=9, flavour='asan'), tree('RF5', 5, 1, 1, '{1}', 'AO', 'RF', maxfail=9)],
     'rule': TREE_RULE, 'assumptions': TREE_ASSUME,
@@ -65,8 +65,8 @@ PLANS['C08'] = {
 }
 PLANS['C11'] = {
     'quick': [tree('D4', 4, 1, 2, '{1}', 'SA', 'D4'), tree('OD4', 4, 1, 1, '{1}', 'O', 'OD'),
-              tree('DL5', 5, 1, 1, '{1}', 'A', 'DL', maxfail=9, circ=1, flavour='limits'), tree('RD6', 6, 1, 1, '{1}', 'A', 'RD', constraint='RDConstraint')],
-    'thorough': [tree('D4', 4, 1, 2, '{1}', 'SA', 'D4'), tree('OD4', 4, 1, 1, '{1}', 'O', 'OD'),
+              tree('DL5', 5, 1, 1, '{1}', 'A', 'DL', maxfail=9, circ=1, flavour='limits'), tree('RD6', 6, 1, 1, '{1}', 'A', 'RD', constraint='RDConstraint'), tree('ODF4', 4, 1, 1, '{1}', 'O', 'ODF', maxfail=6)],
+    'thorough': [tree('D4', 4, 1, 2, '{1}', 'SA', 'D4'), tree('OD4', 4, 1, 1, '{1}', 'O', 'OD'), tree('ODF4', 4, 1, 1, '{1}', 'O', 'ODF', maxfail=6),
                  tree('DL5', 5, 1, 1, '{1}', 'A', 'DL', maxfail=9, circ=1, flavour='limits'),
                  tree('D4asan', 4, 1, 2, '{1}', 'SA', 'D4', flavour='asan')],
     'rule': TREE_RULE, 'assumptions': TREE_ASSUME + ['the depth-limit logic is exercised in a build with -DCJSON_CIRCULAR_LIMIT=1 (a documented #ifndef knob) against the specification constant CircularLimit = 1'],
